@@ -117,9 +117,9 @@ def prog_event(tid, o, i, fl, placement):
             fns.add(g['w_orig'], 'f1'); fns.add(g['inner'], 'f2')
             # wrap-only decorator: the expected value is what the wrapped function itself declares
             declared, agree = outcome_full(declared_thunk(g['w_orig'], g['inner'], fl), fns), 'ps'
-        elif base in ('auto_param', 'auto_param_method'):
+        elif base in ('auto_param', 'auto_param_method', 'auto_param_nested'):
             fn, plain_target = g['w'], g['w']
-            w0 = g['w0'] if base == 'auto_param' else g['K'].w0
+            w0 = g['K'].w0 if base == 'auto_param_method' else g['w0']
             codes = {w0.__code__}
             fns.add(w0, 'f1'); fns.add(g['inner'], 'f2')
             # "discovery looks through the partial using the bound arguments": the declaration equivalent to partial(w0, inner) /
